@@ -262,9 +262,12 @@ static void installSeams(Interpreter& interp, const std::string& engine, RecMoni
 	indexElements(interp.getImpl()->getDocument()->getDocumentElement(), rec);
 	ActionLanguage al;
 	al.logger = Logger(std::shared_ptr<LoggerImpl>(new RecLogger()));
-	al.microStepper = MicroStep(Factory::getInstance()->createMicroStepper(engine, (MicroStepCallbacks*)interp.getImpl().get()));
-	al.internalQueue = EventQueue(std::shared_ptr<EventQueueImpl>(new RecQueue(true)));
-	al.externalQueue = EventQueue(std::shared_ptr<EventQueueImpl>(new RecQueue(false)));
+	if (engine != "default") {
+		// "default": the interpreter as a user gets it -- engine and queues are created lazily by init()
+		al.microStepper = MicroStep(Factory::getInstance()->createMicroStepper(engine, (MicroStepCallbacks*)interp.getImpl().get()));
+		al.internalQueue = EventQueue(std::shared_ptr<EventQueueImpl>(new RecQueue(true)));
+		al.externalQueue = EventQueue(std::shared_ptr<EventQueueImpl>(new RecQueue(false)));
+	}
 	interp.setActionLanguage(al);
 	interp.addMonitor(mon);
 }
@@ -290,6 +293,35 @@ static int runCase(const Case& c, FILE* out) {
 		if (mode.compare(0, 7, "cancel@") == 0) cancelAt = atoi(mode.c_str() + 7);
 		if (mode.compare(0, 7, "resume@") == 0) resumeAt = atoi(mode.c_str() + 7);
 		if (mode.compare(0, 8, "presume@") == 0) { resumeAt = atoi(mode.c_str() + 8); preload = true; }
+		if (mode == "api") {
+			// C10: the event "word" is a word over the public API, executed verbatim:
+			//   step | recv:<event> | cancel | reset
+			InterpreterState st2 = USCXML_UNDEF;
+			for (size_t i = 0; i < c.words.size(); i++) {
+				const std::string& op = c.words[i];
+				if (op == "step") {
+					st2 = interp.step(0);
+					emitCall(out, "step", "[]", stateName(st2), rec, (st2 == USCXML_INITIALIZED) ? "[]" : cfgJson(interp));
+				} else if (op.compare(0, 5, "recv:") == 0) {
+					rec.inReceive = true;
+					Event e(op.substr(5), Event::EXTERNAL);
+					interp.receive(e);
+					rec.inReceive = false;
+					emitCall(out, "receive", jtokens(op.substr(5)), "-", rec, "[]");
+				} else if (op == "cancel") {
+					rec.inReceive = true;
+					interp.cancel();
+					rec.inReceive = false;
+					emitCall(out, "cancel", "[]", "-", rec, "[]");
+				} else if (op == "reset") {
+					interp.reset();
+					emitCall(out, "reset", "[]", "-", rec, "[]");
+				}
+			}
+			fprintf(out, "{\"k\":\"end\",\"steps\":%d,\"dm\":[],\"last\":\"%s\",\"limit\":false", (int)c.words.size(), stateName(st2));
+			fflush(out);
+			_exit(0);
+		}
 		int steps = 0;
 		int idles = 0;
 		int stables = 0;
